@@ -2151,3 +2151,120 @@ func ruleGlobalOperandInterned(c *Ctx, rule string) {
 		c.Und(rule, "emissions of OpGetGlobal / OpSetGlobal", "-", fmt.Sprintf("only %d found", n))
 	}
 }
+
+// ---- C18/map-update-nonnil -----------------------------------------------------------------------------------------------------------------
+// A write to a nil map panics, whatever the input.  Every map update on the
+// decode path writes to a map that is non-nil by construction: made in the same
+// function, or read from a place the function has filled with a made map
+// wherever it was nil (`if *o == nil { *o = Map{} }`), or tested non-nil.
+// Decoding into the zero value of a map type (`var m encoder.Map;
+// m.UnmarshalBinary(validData)`) must not panic.
+func ruleMapUpdateNonNil(c *Ctx, rule string, fns []*ssa.Function) {
+	l := c.L
+	n := 0
+	for _, fn := range fns {
+		eachInstr(fn, func(ins ssa.Instruction) {
+			mu, ok := ins.(*ssa.MapUpdate)
+			if !ok {
+				return
+			}
+			n++
+			var nonNil func(v ssa.Value, at ssa.Instruction, d int) bool
+			nonNil = func(v ssa.Value, at ssa.Instruction, d int) bool {
+				if d > 4 {
+					return false
+				}
+				switch x := v.(type) {
+				case *ssa.MakeMap:
+					return true
+				case *ssa.ChangeType:
+					return nonNil(x.X, at, d+1)
+				case *ssa.MakeInterface:
+					return nonNil(x.X, at, d+1)
+				case *ssa.Phi:
+					for _, e := range x.Edges {
+						if !nonNil(e, at, d+1) {
+							return false
+						}
+					}
+					return len(x.Edges) > 0
+				case *ssa.Call:
+					f := x.Call.StaticCallee()
+					if f == nil || len(f.Blocks) == 0 {
+						return false
+					}
+					k := 0
+					for _, b := range f.Blocks {
+						if ret, ok := b.Instrs[len(b.Instrs)-1].(*ssa.Return); ok && len(ret.Results) >= 1 {
+							k++
+							if !nonNil(ret.Results[0], ret, d+1) {
+								return false
+							}
+						}
+					}
+					return k > 0
+				case *ssa.UnOp:
+					if x.Op != token.MUL {
+						return false
+					}
+					// a guard that the loaded value is not nil
+					for _, g := range guardEdges(at.Block()) {
+						bo, ok := g.If.Cond.(*ssa.BinOp)
+						if !ok || (bo.Op != token.EQL && bo.Op != token.NEQ) || (bo.Op == token.NEQ) != g.Truth {
+							continue
+						}
+						for _, pr := range [][2]ssa.Value{{bo.X, bo.Y}, {bo.Y, bo.X}} {
+							if k, isK := pr[1].(*ssa.Const); isK && k.IsNil() && (pr[0] == v || exprEq(pr[0], v)) {
+								return true
+							}
+						}
+					}
+					// filled where it was nil: a block `if load(A) == nil` whose nil side stores a made
+					// map to A, dominating this load; or an unconditional such store dominating it
+					found := false
+					eachInstr(fn, func(i2 ssa.Instruction) {
+						st, ok := i2.(*ssa.Store)
+						if !ok || found || !(st.Addr == x.X || samePath(st.Addr, x.X)) || !nonNil(st.Val, st, d+1) {
+							return
+						}
+						if instrDominates(st, x) {
+							found = true
+							return
+						}
+						for _, g := range guardEdges(st.Block()) {
+							bo, ok := g.If.Cond.(*ssa.BinOp)
+							if !ok || (bo.Op != token.EQL && bo.Op != token.NEQ) || (bo.Op == token.EQL) != g.Truth {
+								continue
+							}
+							for _, pr := range [][2]ssa.Value{{bo.X, bo.Y}, {bo.Y, bo.X}} {
+								k, isK := pr[1].(*ssa.Const)
+								ld, isL := pr[0].(*ssa.UnOp)
+								if isK && k.IsNil() && isL && (ld.X == x.X || samePath(ld.X, x.X)) && g.If.Block().Dominates(x.Block()) {
+									found = true
+								}
+							}
+						}
+					})
+					return found
+				}
+				return false
+			}
+			// an update made while ranging over the same map: the body runs only for a non-empty map
+			inOwnRange := false
+			eachInstr(fn, func(i2 ssa.Instruction) {
+				nx, ok := i2.(*ssa.Next)
+				if !ok {
+					return
+				}
+				if rg, ok := nx.Iter.(*ssa.Range); ok && (rg.X == mu.Map || exprEq(rg.X, mu.Map)) && nx.Block() != mu.Block() && nx.Block().Dominates(mu.Block()) {
+					inOwnRange = true
+				}
+			})
+			c.Check(rule, fmt.Sprintf("%s | %s[…] = …", fnName(fn), describe(mu.Map)), l.Pos(mu.Pos()), inOwnRange || nonNil(mu.Map, mu, 0), "the map is made in the function, filled where it was nil, or tested non-nil",
+				"the map written to is read from a place nothing has filled: decoding valid data into a zero value (`var m encoder.Map; m.UnmarshalBinary(data)`) panics with 'assignment to entry in nil map'")
+		})
+	}
+	if n < 2 {
+		c.Und(rule, "map updates on the decode path", "-", fmt.Sprintf("only %d found", n))
+	}
+}
